@@ -212,6 +212,14 @@ pub fn c08(args: &[String]) {
     done.store(true, Ordering::SeqCst);
     let lines = trace::take();
     let total = lines.len();
+    if mode != "burst" {
+        // the reloader thread's own view of the same run, for Trace_Thread.tla
+        let mut th = Vec::new();
+        for l in lines.iter() {
+            crate::replay::thread_event(l, &mut th);
+        }
+        trace::write_ndjson(&format!("{out}.thread"), &th).unwrap();
+    }
     let proj = project(lines);
     trace::write_ndjson(&out, &proj).unwrap();
     println!("REPORT {}", json!({"blocked":false,"progress":progress.load(Ordering::SeqCst),"events":total,"projected":proj.len()}));
@@ -362,25 +370,59 @@ pub fn c15(args: &[String]) {
         drop(src);
     }
     let mut watcher_threads_left = 0usize;
+    let mut watcher_threads_dotted = 0usize;
     if kind == "fs" {
+        let count_watchers = || -> usize {
+            let mut n = 0;
+            if let Ok(rd) = std::fs::read_dir("/proc/self/task") {
+                for e in rd.flatten() {
+                    let comm = std::fs::read_to_string(e.path().join("comm")).unwrap_or_default();
+                    if comm.trim().starts_with("notify-rs") {
+                        n += 1;
+                    }
+                }
+            }
+            n
+        };
         // the watchers of the dropped caches: an event that names no asset (a dotted file) must end them too
         for i in 0..5 {
             let _ = std::fs::write(format!("{dir}/notes.v2.txt"), format!("x{i}"));
             std::thread::sleep(std::time::Duration::from_millis(40));
         }
         std::thread::sleep(std::time::Duration::from_millis(300));
-        if let Ok(rd) = std::fs::read_dir("/proc/self/task") {
-            for e in rd.flatten() {
-                let comm = std::fs::read_to_string(e.path().join("comm")).unwrap_or_default();
-                if comm.trim().starts_with("notify-rs") {
-                    watcher_threads_left += 1;
+        watcher_threads_left = count_watchers();
+        // the same on a fresh root where, after the drops, ONLY modifications of an existing entry
+        // without an id happen (no creation: that would name the root directory as well)
+        let dir2 = format!("{dir}-dotted");
+        let _ = std::fs::remove_dir_all(&dir2);
+        std::fs::create_dir_all(format!("{dir2}/v1.2")).unwrap();
+        std::fs::write(format!("{dir2}/a.x"), "v1").unwrap();
+        std::fs::write(format!("{dir2}/notes.v2.txt"), "n0").unwrap();
+        std::fs::write(format!("{dir2}/v1.2/b.x"), "n0").unwrap();
+        std::thread::sleep(std::time::Duration::from_millis(100));
+        let base = count_watchers();
+        for _ in 0..3 {
+            let c = AssetCache::new(&dir2).expect("fs cache");
+            let _ = c.load::<Leaf<0>>("a");
+            drop(c);
+        }
+        std::thread::sleep(std::time::Duration::from_millis(300));
+        for i in 0..6 {
+            use std::io::Write;
+            for f in ["notes.v2.txt", "v1.2/b.x"] {
+                if let Ok(mut fh) = std::fs::OpenOptions::new().write(true).open(format!("{dir2}/{f}")) {
+                    let _ = fh.write_all(format!("m{i}").as_bytes());
                 }
             }
+            std::thread::sleep(std::time::Duration::from_millis(40));
         }
+        std::thread::sleep(std::time::Duration::from_millis(400));
+        watcher_threads_dotted = count_watchers().saturating_sub(base);
+        let _ = std::fs::remove_dir_all(&dir2);
         let _ = std::fs::remove_dir_all(&dir);
     }
     trace::write_ndjson(&out, &all).unwrap();
-    println!("REPORT {}", json!({"kind":kind,"rounds":results,"events":all.len(),"watcher_threads_left":watcher_threads_left}));
+    println!("REPORT {}", json!({"kind":kind,"rounds":results,"events":all.len(),"watcher_threads_left":watcher_threads_left,"watcher_threads_dotted":watcher_threads_dotted}));
 }
 
 // ---------------------------------------------------------------------------
